@@ -145,7 +145,7 @@ def run(pid, tier):
     rej = check.validate_scripts(ctx, "Trace_Uplink.tla", "Trace_Uplink.cfg", items, timeout=900)
     for s, ev, k, r in rej:
         ctx.violation("uplink execution %s: event %d %s refused by the declarative decoder" % (s.sid, k, json.dumps(ev[k])[:300] if k < len(ev) else "(end)"),
-                      {"kind": "trace", "module": "Trace_Uplink.tla", "cfg": "Trace_Uplink.cfg", "script": s.text(), "events": ev, "refused_at": k})
+                      {"kind": "trace", "module": "Trace_Uplink.tla", "cfg": "Trace_Uplink.cfg", "script": s.text(), "events": ev, "refused_at": k, "regen": {"kind": "uplink_templates", "templates": s.events}})
     for s, ev in items[:2]: ctx.sample({"script": s.sid, "events": ev[:6]})
     ctx.cov["rule"] = "cases = feed/drain events; distinct = distinct (message length, last byte) of delivered messages"
     ctx.assumptions += ["debug mode (every message but MSG_STALL surfaces); corruptions that yield a CRC-valid frame with a malformed payload or a doubled escape byte are C12's domain and are not generated; a frame truncated inside an escape pair is generated (dropped, next packet intact)"]
